@@ -3,7 +3,8 @@
    [sat th s] says th solves every binding of the substitution s.
    unify f s ext u v : UOk s' ext' | UFail | UOOF (fuel f exhausted; a separate outcome). *)
 From Coq Require Import List ZArith Bool Arith.
-From PV Require Import Model.Term Model.Subst Model.Unify Proofs.UnifyProofs.
+From PV Require Import Model.Term Model.Subst Model.Unify Model.FD Model.State Model.Engine Proofs.UnifyProofs
+  Proofs.KeyStream Proofs.Acyc Proofs.BodyInv Proofs.AcycState.
 Import ListNotations.
 
 (* success: the solutions of the answer are exactly the unifiers of u and v that are consistent
@@ -42,6 +43,57 @@ Theorem C01_occurs_check : forall f s x t th,
   occurs f s x t = Some true -> sat th s -> is_var t = false -> tsize (th x) < tsize (app th t).
 Proof. exact occurs_size_strict. Qed.
 
+(* ---------------------------------------------------------------- finite unifier, idempotent mgu, no cycles *)
+(* acyc s : s was built by binding one variable at a time, each unbound at that moment, to a walked
+   term that does not contain it under the older bindings.  solve s applies the bindings oldest
+   first; its values are finite trees by construction (terms are an inductive type). *)
+
+(* success from an acyclic substitution: the answer is acyclic again; solve s' is a finite-tree
+   unifier of u and v that solves the prior bindings (so success implies that a finite unifier
+   exists); it is idempotent; and every unifier consistent with the prior bindings is an instance
+   of it (th' = th' o solve s') *)
+Theorem C01_idempotent_mgu : forall f s ext u v s' ext',
+  acyc s -> unify f s ext u v = UOk s' ext' ->
+  let th := solve s' in
+  acyc s' /\ sat th s' /\ sat th s /\ app th u = app th v /\
+  (forall x, app th (th x) = th x) /\
+  (forall th', sat th' s -> app th' u = app th' v -> forall t, app th' (app th t) = app th' t).
+Proof. exact unify_idempotent_mgu. Qed.
+
+(* the walk loop terminates: in an acyclic substitution wk ends on an unbound variable or a
+   non-variable for every term (the fuel |s|+1 of the model's walk is adequate), so unify never
+   reports "out of fuel" for a walk *)
+Theorem C01_walk_terminates : forall s t, acyc s -> final s (wk s t) = true.
+Proof. intros s t A. apply wk_final, A. Qed.
+
+(* no cyclic term, anywhere, ever: every state inside every stream of every goal the front end can
+   elaborate (no reification step inside), started from an acyclic state, has an acyclic
+   substitution; so has every answer such a stream delivers - for all programs, relation
+   definitions, search strategies and fuel.  This covers every binding any operation makes:
+   unification, the bindings CLP(FD) makes when a domain becomes a single value, and CLP(Z). *)
+Theorem C01_acyclic_everywhere : forall defs n g st,
+  acycS st -> body g -> pbS acycS (start defs n g st).
+Proof. exact start_acyc. Qed.
+Theorem C01_acyclic_answers : forall defs k used s a rest used',
+  pbS acycS s -> next defs k used s = NAnswer a rest used' -> acycS a /\ pbS acycS rest.
+Proof. exact next_acyc. Qed.
+Theorem C01_acyclic_initial : forall n, acycS (empty_state n).
+Proof. exact empty_acyc. Qed.
+(* the four state operations individually *)
+Theorem C01_acyclic_ops : forall st,
+  acycS st ->
+  (forall u v, sresPb acycS (state_unify st u v)) /\ (forall u v, sresPb acycS (state_disunify st u v)) /\
+  (forall x d, sresPb acycS (post_domain x d st)) /\ (forall c, sresPb acycS (post_constraint c st)).
+Proof.
+  intros st A. repeat split; intros.
+  - apply state_unify_acyc, A.
+  - apply state_disunify_acyc, A.
+  - apply post_domain_acyc, A.
+  - apply post_constraint_acyc, A.
+Qed.
+Example C01_acyc_example : acyc [(1, TCons (TVar 2 false) TEmpty); (0, TVar 1 false)].
+Proof. exact acyc_example. Qed.
+
 (* non-vacuity, over the full term algebra: lists, improper lists, compounds, prior bindings *)
 Example C01_example_ok :
   unify dfuel [(0, TVar 1 false)] [] (TComp 7 (TMore (TVar 0 false) (TMore (tnum 2) TNil)))
@@ -63,3 +115,9 @@ Print Assumptions C01_most_general.
 Print Assumptions C01_extends.
 Print Assumptions C01_failure.
 Print Assumptions C01_occurs_check.
+Print Assumptions C01_idempotent_mgu.
+Print Assumptions C01_walk_terminates.
+Print Assumptions C01_acyclic_everywhere.
+Print Assumptions C01_acyclic_answers.
+Print Assumptions C01_acyclic_initial.
+Print Assumptions C01_acyclic_ops.
